@@ -386,6 +386,10 @@ def _run(ev, work, thorough):
     ev.exhaustive = True
     ev.sample(hists[0])
     ev.sample({"state": states()[4], "rejection": catalogue()[5][0]})
+    # ---- traces of the repository's own test-suite against the per-call contract clauses (harness/checks/suite.py) ----
+    if thorough:
+        from . import suite as SUITE
+        SUITE.stage(ev, verd, work, 'C18', True)
     n = verd.report(ev)
     return 1 if n else 0
 
